@@ -87,7 +87,8 @@ def tasks(tier: str, seed: int) -> List[Any]:
     for n in (4, 3, 2):
         small = [0, 1, 2, 3] + ([4] if thorough else [])
         large = [7, 100] + ([20] if thorough else [])
-        out.append(("mc.c17_cube", "scramble", dict(n=n, ks=large, n_keys=n_keys, ball_depth=ball, **common)))
+        out.append(("mc.c17_cube", "scramble", dict(n=n, ks=large, n_keys=n_keys, ball_depth=ball, sequences=False,
+                                                    **common)))
         out.append(("mc.c17_cube", "scramble", dict(n=n, ks=small, n_keys=n_keys, ball_depth=ball, **common)))
     for reward in ("dense", "sparse"):
         out.append(("mc.c17_slide", "full_space", dict(n=3, reward=reward, **common)))
